@@ -4,7 +4,7 @@ import sys
 import time
 from typing import Any, List
 
-from mc import runner
+from mc import findings, runner
 from mc.gen import atoms as A
 from mc.gen import spaces
 
@@ -53,6 +53,13 @@ def items(tier: str) -> List[Any]:
         if s not in seen:
             seen.add(s)
             out.append(("shuffle", "RekeyTo", s))
+    from mc.gen import raw  # pylint: disable=import-outside-toplevel
+
+    for atom in [["txn RekeyTo", "global ZeroAddress", "=="], ["txn RekeyTo", f"addr {A.LIT1}", "!="]]:
+        for s in raw.with_atom(atom, 4 if tier == "quick" else 5):
+            if s not in seen:
+                seen.add(s)
+                out.append(("g1a", "RekeyTo", s))
     out.append(("lattice", "", ""))
     return out
 
@@ -102,6 +109,13 @@ def worker(item: Any, res: runner.Result) -> None:
     if mode == "lattice":
         lattice(res)
         return
+    if mode == "g1a":
+        from mc.asm import tokenize  # pylint: disable=import-outside-toplevel
+        from mc.refcfg import RefGraph  # pylint: disable=import-outside-toplevel
+
+        if not RefGraph(tokenize(src)).entered_only_through_callsub():
+            res.count("filtered_bodies_not_entered_only_through_callsub")
+            return
     try:
         case = sem.Case(src)
     except BaseException as e:  # pylint: disable=broad-except
@@ -124,12 +138,22 @@ def worker(item: Any, res: runner.Result) -> None:
     attr = FIELDS[field]
     outcome = tuple((b.entry_instr.line,) + tuple(__import__("mc.harness", fromlist=["x"]).addr_snapshot(getattr(case.ctx(b), attr)))
                     for b in case.function.blocks)
-    if mode == "direct":
+    if mode == "direct" or (mode == "g1a" and not sem.can_fall_off_end(case.lines)):
         abstract.check_c08_converse(case, item, res, field, attr)
     res.outcome(outcome)
     if any(not o[1] for o in outcome):
         res.mark_nontrivial(src)
     res.sample({"program": src, "field": field, "contexts": [list(o) for o in outcome]})
+
+
+_ATTR = None
+
+
+def attribute(entry: Any, v: Any) -> bool:
+    global _ATTR  # pylint: disable=global-statement
+    if _ATTR is None:
+        _ATTR = findings.any_of(findings.by_repair(worker, lambda it: it[-1], lambda it, s: tuple(it[:-1]) + (s,)), findings.by_patch(worker))
+    return _ATTR(entry, v)
 
 
 def main(argv: List[str]) -> int:
